@@ -22,6 +22,7 @@ import XV.Driver.Particle
 import XV.Driver.XsdValid
 import XV.Driver.Reader
 import XV.Driver.Hist
+import XV.Driver.Infoset
 open XV.Driver
 
 def main (args : List String) : IO UInt32 := do
@@ -65,5 +66,7 @@ def main (args : List String) : IO UInt32 := do
   | ["xsd"] => lineLoopS stdin stdout (none : Option XV.Spec.XsdValid.Schema) XV.Driver.XsdValid.handle; return 0
   | ["reader"] => lineLoop stdin stdout XV.Driver.Reader.handle; return 0
   | ["hist"] => lineLoop stdin stdout XV.Driver.Hist.handle; return 0
+  | ["infoset"] => lineLoop stdin stdout XV.Driver.Infoset.handle; return 0
+  | ["infonorm"] => lineLoop stdin stdout XV.Driver.Infoset.handleNorm; return 0
   | ["utf8spec"] => lineLoop stdin stdout XV.Driver.Utf8.handleSpec; return 0
   | _ => IO.eprintln "usage: xvdriver <area>"; return 2
